@@ -61,6 +61,9 @@ package ast_api_java
 // the value = "/p" form, for the shorthand annotations as for @RequestMapping (single pair)
 //@ ensures isSpringRestController && old(hasEnterClass) && HandlerMapping(ctx) && Child(ctx, "elementValue") == nil && Pairs(ctx) != nil && NPairs(ctx) == 1 && PairKey(ctx, 0) == "value" &&
 //@    IsLit(PairVal(ctx, 0)) && !Contains(old(baseApiUrl), "\"") ==> currentRestAPI.Uri == old(baseApiUrl) + Lit(PairVal(ctx, 0))
+// any number of pairs, in any order (value before or after method = ...): the path is the one of the last value pair
+//@ ensures isSpringRestController && old(hasEnterClass) && HandlerMapping(ctx) && Child(ctx, "elementValue") == nil && Pairs(ctx) != nil ==>
+//@    currentRestAPI.Uri == UriAfter(ctx, old(baseApiUrl), ReplaceAll(old(baseApiUrl), "\"", ""), NPairs(ctx))
 //@ loop 1 invariant currentRestAPI.Uri == UriAfter(ctx, baseApiUrl, uriRemoveQuote, #i)
 //@ loop 1 invariant hasEnterRestController && isSpringRestController && restAPIs == old(restAPIs) && currentRestAPI.HttpMethod == VerbOf(annotationName)
 //@ loop 2 invariant currentRestAPI.Uri == UriAfter(ctx, baseApiUrl, uriRemoveQuote, #i)
